@@ -655,3 +655,101 @@ def run_c13_build(cfg: GCfg, c: Ctx) -> Any:
     if cfg.twin:
         c.check(False, "reachability twin: the end of the harness is reachable", prop="TWIN")
     return {"case": "ok", **data}
+
+
+# ------------------------------------------------------------------------------------------------ configuration loaders
+@dataclasses.dataclass(frozen=True)
+class LCfg:
+    prop: str = "C07"
+    twin: bool = False
+
+
+@watchdog(lambda cfg: cfg.prop)
+def run_config_loaders(cfg: LCfg, c: Ctx) -> Any:
+    """config_from_dict / config_from_yaml / config_from_json with the same (concrete, solver-enumerated) content configure a
+    DAG identically: node attributes, max_concurrency, the compound-priority table (own priority + distinct descendants) and
+    the execution order with max_concurrency 1 that follows from it."""
+    import json
+    import os
+    import tempfile
+
+    import yaml
+    from tawazi import Resource, dag, xn
+
+    N = 3
+    labels = ["n%d" % i for i in range(N)]
+    deps = _edges(c, labels)
+    desc, _anc = closure(labels, deps)
+    addr = ("id", "tag", "shared-tag")[c.choose(3, "address")]
+    loader = ("dict", "yaml", "json")[c.choose(3, "loader")]
+    prio = {l: (0, 2, -1)[c.choose(3, "prio_" + l)] for l in labels}
+    seq = {l: bool(c.choose(2, "seq_" + l)) for l in labels}
+    if addr == "shared-tag":
+        prio = {l: prio[labels[0]] for l in labels}
+        seq = {l: seq[labels[0]] for l in labels}
+    mc = (1, 3)[c.choose(2, "mc")]
+    order: List[str] = []
+
+    def make(l: str) -> Any:
+        def fn(*a):  # type: ignore[no-untyped-def]
+            order.append(l)
+            return SymVal(vapp("f_" + l, [lift(v) for v in a]))
+
+        fn.__name__ = fn.__qualname__ = l
+        return fn
+
+    xns = {l: xn(make(l), priority=1, is_sequential=False, tag=("t_" + l, "g"), resource=Resource.main_thread) for l in labels}
+
+    def pipe(x):  # type: ignore[no-untyped-def]
+        r: Dict[str, Any] = {}
+        for l in labels:
+            r[l] = xns[l](x, *[r[d] for d in deps[l]])
+        return tuple(r[l] for l in labels)
+
+    d = dag(pipe, max_concurrency=2)
+    if addr == "shared-tag":
+        nodes_cfg: Dict[str, Any] = {"g": {"priority": prio[labels[0]], "is_sequential": seq[labels[0]]}}
+    else:
+        nodes_cfg = {(l if addr == "id" else "t_" + l): {"priority": prio[l], "is_sequential": seq[l]} for l in labels}
+    conf = {"nodes": nodes_cfg, "max_concurrency": mc}
+    data: Dict[str, Any] = {"deps": deps, "address": addr, "loader": loader, "config": conf}
+    if loader == "dict":
+        d.config_from_dict(conf)
+    else:
+        fd, path = tempfile.mkstemp(prefix="sxconf", suffix="." + loader)
+        try:
+            with os.fdopen(fd, "w") as f:
+                if loader == "yaml":
+                    yaml.safe_dump(conf, f)
+                else:
+                    json.dump(conf, f)
+            (d.config_from_yaml if loader == "yaml" else d.config_from_json)(path)
+        finally:
+            os.unlink(path)
+    P = cfg.prop
+    for l in labels:
+        node = d.get_node_by_id(l)
+        c.check(node.priority == prio[l] and node.is_sequential == seq[l], "node %s has priority %r / is_sequential %r after the %s configuration, configured %r / %r" % (
+            l, node.priority, node.is_sequential, loader, prio[l], seq[l]), prop=P, data=data)
+        c.check(node.resource == Resource.main_thread and tuple(node.tag) == ("t_" + l, "g"), "the configuration changed the resource or the tags of %s" % l, prop=P, data=data)
+        want_cp = prio[l] + sum(prio[m] for m in desc[l])
+        c.check(d.graph_ids.compound_priority[l] == want_cp, "compound priority of %s is %r after the %s configuration, own + distinct descendants is %r" % (
+            l, d.graph_ids.compound_priority[l], loader, want_cp), prop=P, data=data)
+    c.check(d.max_concurrency == mc, "max_concurrency is %r after the %s configuration, configured %r" % (d.max_concurrency, loader, mc), prop=P, data=data)
+    # execution order: main-thread nodes run one at a time; among the ready nodes the greatest compound priority goes first
+    d(c.val("x"))
+    cp = {l: prio[l] + sum(prio[m] for m in desc[l]) for l in labels}
+    done: List[str] = []
+    ok = len(order) == N and set(order) == set(labels)
+    for l in order if ok else []:
+        ready = [m for m in labels if m not in done and all(dd in done for dd in deps[m])]
+        if l not in ready or any(cp[m] > cp[l] for m in ready):
+            ok = False
+            break
+        done.append(l)
+    c.check(ok, "execution order %s does not follow the configured compound priorities %s" % (order, cp), prop=P, data=data)
+    c.cover("w_loader_" + loader)
+    c.cover("states", hash(repr(data)))
+    if cfg.twin:
+        c.check(False, "reachability twin: the end of the harness is reachable", prop="TWIN")
+    return data
